@@ -4,10 +4,11 @@ from ..common import d42  # noqa: F401
 from d42 import substitute, validate
 from d42.substitution.errors import SubstitutionError
 
-MODULE = "D42.Props.C12"
+MODULE = "D42.Props.C12Idem"
 THEOREMS = ["subst_error_kind", "fromNativeS_error_kind", "subst_any_nonempty", "subst_listE_exact",
-            "subst_idempotent_scalar"]
-FILES = ["D42/Model/Data.lean", "D42/Model/Validate.lean", "D42/Model/Subst.lean", "D42/Props/C14.lean", "D42/Props/C12.lean"]
+            "subst_idempotent_scalar", "subst_idempotent", "subst_result_subAccepts", "subst_fromNative_self",
+            "subst_idempotent_nan_counterexample"]
+FILES = ["D42/Model/Data.lean", "D42/Model/Validate.lean", "D42/Model/Subst.lean", "D42/Props/C14.lean", "D42/Props/C12.lean", "D42/Props/C05.lean", "D42/Props/C12Idem.lean"]
 
 EVIDENCE = dict(
     level="proof",
@@ -41,7 +42,12 @@ def oracle(ctx, cases):
                     ctx.violation("the result of substitution cannot be generated from (%s)" % type(v).__name__,
                                   result=repr(r), policy=pol, exception=repr(v), py_result=r, **info)
                     break
-                if validate(r, v).has_errors():
+                try:
+                    rejects = validate(r, v).has_errors()
+                except Exception:   # noqa: BLE001 — validate raising is C08's business
+                    ctx.count("validate_raised")
+                    rejects = False
+                if rejects:
                     ctx.violation("the result of substitution rejects what it generates", result=repr(r),
                                   generated=repr(v), py_result=r, **info)
                     break
